@@ -6,7 +6,8 @@
 //	   every other grammar position of every rule (k = 2 quick, 3 thorough; lexical rules instantiated from the fixed token pools of
 //	   verif/enum/grammar), de-duplicated;
 //	C  every query of the repository corpora (cypher/test/cases, pgsql translation cases, integration cases);
-//	M  every single-token deletion, duplication and neighbour swap of every corpus query.
+//	M  every single-token deletion, duplication and neighbour swap of every corpus query, and every insertion of an unlexable
+//	   character ("!") at a token boundary.
 //
 // Oracle for every text t that frontend.ParseCypher(frontend.NewContext(), t) accepts, with model m (oracle.go):
 //
@@ -119,7 +120,7 @@ func main() {
 		run.Finish()
 	}
 	run.Set("rule", fmt.Sprintf("all derivations of Cypher.g4 with <= %d deviations of every rule in its best context and <= %d at every other grammar position (token pools for names, strings, numbers, blanks); "+
-		"every query of the repository corpora; every single-token deletion, duplication and neighbour swap of every corpus query. distinct_nontrivial counts the distinct texts (exact: sharded by hash) "+
+		"every query of the repository corpora; every single-token deletion, duplication and neighbour swap of every corpus query and every insertion of an unlexable '!' at a token boundary. distinct_nontrivial counts the distinct texts (exact: sharded by hash) "+
 		"that the parser accepts - the texts on which the faithfulness oracle (re-emit, re-parse, model equality, fixed point, token containment, range values) is evaluated.", k, k-1))
 	run.Assume("the project's CypherLexer and the raw parse tree of its generated parser define which tokens and constructs the input contains")
 	run.Assume("re-spellings regarded as meaning-preserving are exactly R1-R8 of cmd/c07/oracle.go (case, ASC/DESC synonyms, literal values, Unicode dashes/arrow heads, <-[]-> = -[]-, range literals by denoted interval, punctuation ( ) , ; :)")
@@ -170,7 +171,7 @@ func explore(s *explorer, k int) {
 			run.Capped("deadline during corpus mutations")
 			return
 		}
-		for _, m := range cytext.Mutations(c.Text) {
+		for _, m := range append(cytext.Mutations(c.Text), cytext.JunkInsertions(c.Text, "!")...) {
 			if s.take(m.Text) {
 				s.eval(artefact{Text: m.Text, Origin: "mutation", Base: c.Text, Edit: m.Op})
 			}
